@@ -448,6 +448,8 @@ structure DW where
   fw : FWorld
   env : Option Env := none
   menv : Option MultiEnv := none
+  /-- `MostWorkRemainingScorer` (a module-level object) has already looked up / created its observers for this dispatcher -/
+  scorer : Bool := false
 
 def emptyDW : DW := { w := emptyWorld, fw := FWorld.init { I := [] } }
 
@@ -574,29 +576,8 @@ def fmtCpModel (m : CpModel) : String :=
 def fmtBars (bs : List Bar) : String :=
   lst (" ".intercalate (bs.map fun b => s!"{b.y}:{b.x}:{b.width}:{b.job}"))
 
-def stepAll (d : DW) (line : String) : DW × String :=
+def stepRest (d : DW) (line : String) : DW × String :=
   match toks line with
-  | "inst" :: _ =>
-    let (w', out) := step d.w line
-    ({ w := w', fw := FWorld.init w'.cfg }, out)
-  | ["redisp"] =>
-    -- a new Dispatcher on the same instance object: nothing of the old dispatcher or its observers carries over
-    ({ w := World.init d.w.cfg, fw := FWorld.init d.w.cfg }, "ok")
-  | "filter" :: _ =>
-    let (w', out) := step d.w line
-    ({ w := w', fw := { d.fw with cfg := w'.cfg } }, out)
-  | ["disp", j, p, m] =>
-    let (w', out) := step d.w line
-    match j.toNat?, p.toNat? with
-    | some j, some p =>
-      let mm : Option (Option Int) := if m == "none" then some none else m.toInt?.map some
-      (match mm with
-       | some mo => ({ w := w', fw := (d.fw.dispatch j p mo).1 }, out)
-       | none => ({ d with w := w' }, out))
-    | _, _ => ({ d with w := w' }, out)
-  | ["reset"] =>
-    let (w', out) := step d.w line
-    ({ w := w', fw := d.fw.reset }, out)
   | ["fobs", k, fts] =>
     match parseFKind k, parseFts fts with
     | some kind, some f =>
@@ -733,6 +714,54 @@ def stepAll (d : DW) (line : String) : DW × String :=
   | _ =>
     let (w', out) := step d.w line
     ({ d with w := w' }, out)
+
+
+def stepAll (d : DW) (line : String) : DW × String :=
+  match toks line with
+  | "inst" :: _ =>
+    let (w', out) := step d.w line
+    ({ w := w', fw := FWorld.init w'.cfg }, out)
+  | ["redisp"] =>
+    -- a new Dispatcher on the same instance object: nothing of the old dispatcher or its observers carries over
+    ({ w := World.init d.w.cfg, fw := FWorld.init d.w.cfg }, "ok")
+  | "filter" :: _ =>
+    let (w', out) := step d.w line
+    ({ d with w := w', fw := { d.fw with cfg := w'.cfg } }, out)
+  | ["disp", j, p, m] =>
+    let (w', out) := step d.w line
+    match j.toNat?, p.toNat? with
+    | some j, some p =>
+      let mm : Option (Option Int) := if m == "none" then some none else m.toInt?.map some
+      (match mm with
+       | some mo => ({ d with w := w', fw := (d.fw.dispatch j p mo).1 }, out)
+       | none => ({ d with w := w' }, out))
+    | _, _ => ({ d with w := w' }, out)
+  | ["reset"] =>
+    let (w', out) := step d.w line
+    ({ d with w := w', fw := d.fw.reset }, out)
+  | cmd :: r :: _ =>
+    -- `MostWorkRemainingScorer.__call__`: on its first use with a dispatcher it gets a DurationObserver with job features
+    -- through create_or_get_observer (an existing one is reused) and - because its condition tests for DurationObserver -
+    -- ALWAYS constructs a new IsReadyObserver(feature_types=JOBS); both are subscribed to the dispatcher
+    -- the module-level scorer of `observer_based_most_work_remaining_rule` does this once per dispatcher; the harness builds
+    -- the other score-based rules (`sb:mwkr`, `tb:…mwkr…`, `scores mwkr`) with a FRESH scorer object per call, each of which
+    -- does it again
+    let uses : Nat :=
+      if cmd == "rule" && r == "omwkr" then (if d.scorer then 0 else 1)
+      else if (cmd == "rule" && r == "sb:mwkr") || (cmd == "scores" && r == "mwkr") then 1
+      else if cmd == "rule" && r.startsWith "tb:" then (r.splitOn "mwkr").length - 1
+      else 0
+    if uses > 0 then
+      let fw' := (List.range uses).foldl (fun fw _ =>
+        let fw1 := match fw.findObs .duration [.jobs] with
+          | some _ => fw
+          | none => (fw.construct .duration (some [.jobs])).1
+        (fw1.construct .isReady (some [.jobs])).1) d.fw
+      let (w', out) := step d.w line
+      ({ d with w := w', fw := fw', scorer := d.scorer || r == "omwkr" }, out)
+    else
+      stepRest d line
+  | _ => stepRest d line
 
 partial def loop (h : IO.FS.Stream) (out : IO.FS.Stream) (d : DW) : IO Unit := do
   let line ← h.getLine
